@@ -346,9 +346,35 @@ func evalC13(c *engine.Ctx, cs c13Case) {
 		c.Violate(tag+"/"+where+"/"+posClass+"/"+d, desc+": got "+trs(g.Canon())+" want "+trs(m.Canon()), cs)
 		return
 	}
+	// a receiver that parses the header once and hands the same header object to DecodeDecrypt for every attempt
+	// (a retransmission, a second look after a key became available): the same datagram gives the same message again
+	if !cs.InSK && !cs.OuterSK {
+		if hdr, herr := message.ParseHeader(wire); herr == nil {
+			var g1, g2 *message.IKEMessage
+			var e1, e2 error
+			if pi := engine.Catch(func() {
+				g1, e1 = ike.DecodeDecrypt(wire, hdr, nil, message.Role_Responder)
+				g2, e2 = ike.DecodeDecrypt(wire, hdr, nil, message.Role_Responder)
+			}); pi != nil {
+				c.Violate(pi.Sig(), desc+": DecodeDecrypt with a pre-parsed header panics: "+pi.Value, cs)
+				return
+			}
+			if e1 != nil || e2 != nil || g1 == nil || g2 == nil || univ.Project(g1).Canon() != m.Canon() || univ.Project(g2).Canon() != m.Canon() {
+				c.Violate("skip-changes-message/"+where+"/"+posClass+"/header-object-used-twice", fmt.Sprintf("%s: decoded twice with one pre-parsed header object: first (%v) %s, second (%v) %s", desc, e1, trs(canonOrNil(g1)), e2, trs(canonOrNil(g2))), cs)
+				return
+			}
+		}
+	}
 	if len(m.P) > 0 {
 		c.Distinct(engine.Hash64(wire))
 	}
 	c.Count("skipped_ok", 1)
 	c.Sample(posClass+"/"+where, map[string]interface{}{"base": cs.Name, "type": cs.Type, "len": cs.Len, "pos": cs.Pos, "wire": engine.Hex(trunc(wire, 80))})
+}
+
+func canonOrNil(m *message.IKEMessage) string {
+	if m == nil {
+		return "<nil>"
+	}
+	return univ.Project(m).Canon()
 }
